@@ -128,6 +128,22 @@ def law_sweep(ctx, sc):
         ek = np.where(estk < y.reshape(-1, 1), taus * dk, (1 - taus) * dk)
         if qk.shape != (n, 3) or np.any(np.abs(qk - ek) > 1e-12 * (1 + dk)):
             bad("pinball-vector-taus", "quantile_score with a vector of taus is not the column-wise pinball loss", case)
+        # argument dtypes: whole-number estimates handed over as an INTEGER array, estimates in float32 against float64
+        # observations -- the score is the pinball loss of the VALUES (numpy promotes to the wider type; the observation is
+        # never rounded to the type of the estimate)
+        if n <= 400:
+            est_i = np.round(est * 3).astype(np.int64)
+            est_32 = est.astype(np.float32)
+            for label, e_arg in (("int64", est_i), ("float32", est_32)):
+                e64 = e_arg.astype(np.float64)
+                got = np.asarray(sc.quantile_score(e_arg, y, [tau]), dtype=np.float64).ravel()
+                dd = np.abs(e64 - y)
+                want = np.where(e64 < y, tau * dd, (1 - tau) * dd)
+                if got.shape != want.shape or np.any(np.abs(got - want) > 1e-12 * (1 + dd)):
+                    i_ = int(np.argmax(np.abs(got - want))) if got.shape == want.shape else 0
+                    bad(f"pinball-dtype-{label}", f"quantile_score with {label} estimates against float64 observations is not the pinball "
+                        f"loss of the values: estimate {e64[i_]!r}, observation {y[i_]!r}, tau {tau}: got {got[i_] if got.shape == want.shape else got.shape!r}, "
+                        f"expected {want[i_]!r}", dict(case, dtype=label))
         # mape / bias
         t = y[np.abs(y) > 1e-3]
         if t.size:
